@@ -719,7 +719,8 @@ def memory_builders(tier):
         out-of-range address is clamped by the simulator's Array and is X in Verilog: outside the property).
         `full_we`: the byte enables are driven all-or-nothing (NO_CHANGE with a partially set `we` is a listed
         deviation: Migen simulates `If(~we, read)`, i.e. reads unless ALL enables are set, the text has `if (!we)`)."""
-        def __init__(self, width, depth, mode, gran, has_re, async_read, init, second_read_port=False, full_we=False):
+        def __init__(self, width, depth, mode, gran, has_re, async_read, init, second_read_port=False, full_we=False,
+                     clamp=False):
             self.specials.mem = mem = Memory(width, depth, init=init)
             kw = dict(write_capable=True, we_granularity=gran, mode=mode, has_re=has_re)
             if async_read:
@@ -727,6 +728,11 @@ def memory_builders(tier):
             p = mem.get_port(**kw)
             self.specials += p
             self.adr, self.dat_w, self.dat_r = p.adr, p.dat_w, p.dat_r
+            if clamp:
+                # non-power-of-two depth: the harness drives `adr`, the port only ever sees addresses < depth
+                # (so the upper addresses depth-1, depth-2, … ARE read and written, out-of-range ones never)
+                self.adr = Signal(len(p.adr))
+                self.comb += p.adr.eq(Mux(self.adr < depth, self.adr, depth - 1))
             if full_we:
                 self.we1 = Signal()
                 self.comb += p.we.eq(Replicate(self.we1, len(p.we)))
@@ -738,7 +744,7 @@ def memory_builders(tier):
                 q = mem.get_port(async_read=False, mode=READ_FIRST)
                 self.specials += q
                 self.adr2, self.dat_r2 = q.adr, q.dat_r
-    from migen import Replicate
+    from migen import Replicate, Mux
     B = []
     for mode, mname in ((WRITE_FIRST, "write-first"), (READ_FIRST, "read-first"), (NO_CHANGE, "no-change")):
         B.append(("Memory/%s/8x8" % mname, lambda mode=mode: MemDut(8, 8, mode, 0, False, False, [1, 2, 3])))
@@ -747,6 +753,12 @@ def memory_builders(tier):
     B.append(("Memory/async/10x4", lambda: MemDut(10, 4, WRITE_FIRST, 0, False, True, [0x3ff, 5])))
     B.append(("Memory/async/12x8/gran4", lambda: MemDut(12, 8, WRITE_FIRST, 4, False, True, None)))
     B.append(("Memory/write-first+read-port/8x8", lambda: MemDut(8, 8, WRITE_FIRST, 0, False, False, None, True)))
+    # non-power-of-two depths (address register / array bounds of the templates), all addresses < depth exercised
+    B.append(("Memory/write-first/8x6", lambda: MemDut(8, 6, WRITE_FIRST, 0, False, False, [1, 2, 3, 4, 5, 6], clamp=True)))
+    B.append(("Memory/write-first/6x5/re", lambda: MemDut(6, 5, WRITE_FIRST, 0, True, False, [9, 8, 7, 6, 5], clamp=True)))
+    B.append(("Memory/write-first/4x3", lambda: MemDut(4, 3, WRITE_FIRST, 0, False, False, None, clamp=True)))
+    B.append(("Memory/read-first/8x12/gran4", lambda: MemDut(8, 12, READ_FIRST, 4, False, False, None, clamp=True)))
+    B.append(("Memory/async/5x7", lambda: MemDut(5, 7, WRITE_FIRST, 0, False, True, [1, 2, 3, 4, 5, 6, 7], clamp=True)))
     B.append(("stream.SyncFIFO/8x4", lambda: stream.SyncFIFO([("data", 8)], 4)))
     B.append(("stream.SyncFIFO/8x8/buffered", lambda: stream.SyncFIFO([("data", 8)], 8, buffered=True)))
     B.append(("wishbone.SRAM/64B", lambda: wishbone.SRAM(64, init=[0x11223344, 0x55667788])))
@@ -1333,6 +1345,15 @@ class SafeAdapter:
 
     def atom(self):
         return self.g.atom()
+
+    def case_test(self):
+        """Test of a Case: an atom, or `~atom` (unbounded value negative: the simulator truncates the test to its
+        declared width, Verilog evaluates it in that width — the keys StmtGen draws are narrower)."""
+        a = self.g.atom()
+        if self.g.rng.random() < 0.4:
+            from migen.fhdl.structure import _Operator
+            return _Operator("~", [a])
+        return a
 
 
 def oracle_modules(rng, n_mod, cycles):
